@@ -74,7 +74,15 @@ impl Quantile {
     fn linear(&self, i: usize, d: f64) -> f64 {
         debug_assert_eq!(d.abs(), 1.);
         let sum = if d < 0. { i - 1 } else { i + 1 };
-        self.q[i] + d * (self.q[sum] - self.q[i]) / (self.n[sum] - self.n[i]).to_f64().unwrap()
+        let dn = (self.n[sum] - self.n[i]).to_f64().unwrap();
+        let dq = self.q[sum] - self.q[i];
+        if dq.is_finite() {
+            self.q[i] + d * dq / dn
+        } else {
+            // The two heights are more than `f64::MAX` apart, so their
+            // difference overflows: divide before subtracting.
+            self.q[i] + d * (self.q[sum] / dn - self.q[i] / dn)
+        }
     }
 
     /// Estimate the p-quantile of the population.
